@@ -40,7 +40,7 @@ CHECKS = {
     "C14": dict(
         module="checks.c14",
         engine="sim_sr",
-        text="The library's random draw is put behind a seam the simulator owns: torch.randint is replaced by an enumerator so that one quantise call evaluates every input under every possible draw, turning the probability statement into an exact count compared with an exact rational model of the format; a seam monitor checks the request (range, shape, dtype, count) and a keyed per-element draw checks independence (contiguous, transposed, rank-3, expanded and requires-grad inputs) and that quantise_fwd's value and quantise_bwd's gradient are the same rounding under the same draws, for up to three format objects sharing (E, M) in one process. Exploration over (format, srbits, input class); the draw space itself is enumerated exhaustively per input when 2^srbits <= 2^20 and sampled otherwise.",
+        text="The library's random draw is put behind a seam the simulator owns: torch.randint is replaced by an enumerator so that one quantise call evaluates every input under every possible draw, turning the probability statement into an exact count compared with an exact rational model of the format; a seam monitor checks the request (range, shape, dtype, count) and a keyed per-element draw checks independence (contiguous, transposed, rank-3, expanded and requires-grad inputs) and that quantise_fwd's value and quantise_bwd's gradient are the same rounding under the same draws, for up to three format objects sharing (E, M) in one process, and that a quantise() output overwritten in place is rounded again like a fresh tensor. Exploration over (format, srbits, input class); the draw space itself is enumerated exhaustively per input when 2^srbits <= 2^20 and sampled otherwise.",
         note="Trusts torch integer/bit ops and float32 arithmetic; the format model is independent exact rational arithmetic; float32 inputs only (other dtypes are C13's territory).",
         technique="deterministic simulation of the random source: exhaustive enumeration of the library's draw at the torch.randint seam, request-log monitor, exact rational reference model",
         ref="DESIGN.md §3 C14",
